@@ -1142,9 +1142,25 @@ def root_rule(ctx):
     return res
 
 
+def cfg_c09(ctx):
+    """CFG-STORE / CFG-FWD for C09: the box a piecewise layer acts on ([-tail_bound, tail_bound], identity
+    outside) is the one its constructor was given -- see rules/cfg_rules.py."""
+    from .cfg_rules import cfg_rule
+
+    return cfg_rule(ctx)
+
+
+def cfg_c17(ctx):
+    """CFG-STORE / CFG-FWD for C17: with tails='linear' a layer accepts every finite input, also through the
+    element-wise CDF transform it builds for its identity features -- see rules/cfg_rules.py."""
+    from .cfg_rules import cfg_rule
+
+    return cfg_rule(ctx)
+
+
 register(
     "C09",
-    [c09_pin, floor_rule, tail_rule, clamp_rule, c17_eps, root_rule],
+    [c09_pin, floor_rule, tail_rule, clamp_rule, c17_eps, root_rule, cfg_c09],
     "Family template over linear / quadratic / cubic / rational-quadratic splines and their unconstrained wrappers, decided on "
     "the symbolic expansion of each function under inverse=False and inverse=True. SPL-PIN: every searched knot vector has its "
     "first and last element stored exactly (0/1 for unit knots; the box arguments for scaled knots) through F.pad / explicit "
@@ -1156,14 +1172,17 @@ register(
     "clamp to [0,1] before de-normalisation (linear, quadratic) and the floor-index repair. EPS-UNITS (shared with C17): the "
     "right-edge epsilon of the bin search has the units of the knots it is added to, so the upper end-point falls into the last "
     "bin for every box. SPL-ROOT: every comparison that admits a closed-form root of the inverse cubic into its bin has a positive "
-    "tolerance on the admitting side (a pre-image lying on a knot is computed as the knot +- rounding). Continuity and strict monotonicity "
+    "tolerance on the admitting side (a pre-image lying on a knot is computed as the knot +- rounding). CFG-STORE / CFG-FWD: every "
+    "transform constructor is abstractly interpreted with each parameter labelled by its name; an argument the object keeps "
+    "(self.tail_bound, self.tails, self.num_bins ...) is kept as given on every path of the constructor chain, and an inner transform "
+    "built by the constructor receives the outer tails / tail_bound. Continuity and strict monotonicity "
     "across bins for all parameter values (inequalities between computed numbers) are out of reach and NOT claimed.",
     [A_CFG, T_OPS],
 )
 
 register(
     "C17",
-    [dom_guard_rule, square_rule, tail_rule, c17_eps],
+    [dom_guard_rule, square_rule, tail_rule, c17_eps, cfg_c17],
     "DOM-GUARD: for Exp.inverse, Tanh.inverse, Sigmoid.inverse (= Logit.forward), CauchyCDF.inverse and the four spline "
     "functions a `raise InputOutsideDomain` guard is the first use of the raw input and its condition, normalised to "
     "MIN(x) op bound / MAX(x) op bound atoms, equals the slot table (open domains reject with <=/>=, closed with </>). "
